@@ -42,8 +42,23 @@ def _order_preserving_store(st, dirs):
                 and is_name(v.elt, v.generators[0].target.id):
             return 'filter'
         if isinstance(v, ast.Call) and dotted(v.func) == 'sorted':
+            if _store_comp(st) is not None:
+                return 'sort+filter'          # dirs[:] = sorted(d for d in dirs if ...)
             return 'sort'
         return 'other'
+    return None
+
+
+def _store_comp(st):
+    """the comprehension / generator that filters the directory list in such a store"""
+    v = st.value
+    if isinstance(v, ast.Call) and dotted(v.func) == 'sorted' and len(v.args) == 1 and not v.keywords:
+        v = v.args[0]
+    if isinstance(v, (ast.ListComp, ast.GeneratorExp)) and len(v.generators) == 1 and \
+            isinstance(v.generators[0].target, ast.Name) and is_name(v.elt, v.generators[0].target.id) and \
+            isinstance(v.generators[0].iter, ast.Name) and \
+            is_name(st.targets[0].value, v.generators[0].iter.id):
+        return v
     return None
 
 
@@ -62,7 +77,7 @@ def r1_order(ctx, rep, R='C14.R1'):
     dirs = names[1]
     sorts = [n.id for n in g.nodes if n.kind == 'stmt' and (
         any(isinstance(c.func, ast.Attribute) and c.func.attr == 'sort' and is_name(c.func.value, dirs)
-            and not c.args for c in calls_in(n.ast)) or _order_preserving_store(n.ast, dirs) == 'sort')]
+            and not c.args for c in calls_in(n.ast)) or _order_preserving_store(n.ast, dirs) in ('sort', 'sort+filter'))]
     ys = [n.id for n in g.nodes if n.kind == 'stmt' and any(
         isinstance(x, ast.Yield) for x in ast.walk(n.ast)) and n.id in g.loop_nodes(lp.id)]
     body = [d for d, k in g.succ[lp.id] if k == 'true']
@@ -323,8 +338,8 @@ def r4_pruning(ctx, rep, R='C14.R4'):
     if lpw is not None:
         dirs = namesw[1]
         for n in gw.nodes:
-            if n.kind == 'stmt' and _order_preserving_store(n.ast, dirs) == 'filter':
-                comp = n.ast.value
+            if n.kind == 'stmt' and _order_preserving_store(n.ast, dirs) in ('filter', 'sort+filter'):
+                comp = _store_comp(n.ast)
                 tv = comp.generators[0].target.id
                 conds = comp.generators[0].ifs
                 good = len(conds) == 1 and isinstance(conds[0], ast.Compare) and \
